@@ -12,13 +12,13 @@ import (
 
 // logIndex indexes the whole execution log of a run.
 type execRec struct {
-	fn       string
-	exec     int
-	enter    int
-	exit     int // -1 if none
-	outcome  u.Beh
-	results  [][]u.Tok
-	args     []u.ArgObs
+	fn      string
+	exec    int
+	enter   int
+	exit    int // -1 if none
+	outcome u.Beh
+	results [][]u.Tok
+	args    []u.ArgObs
 }
 
 type logIndex struct {
